@@ -18,9 +18,12 @@ package memcache
 import (
 	"bufio"
 	"io"
+
+	"github.com/douban/gobeansdb/cmem"
 )
 
 var _ = bufio.NewReader
+var _ = cmem.DBRL
 
 // ---------- ghost accessors (interpreted by govc) ----------
 
@@ -35,6 +38,10 @@ func fresh(x interface{}) bool      { return true }
 // the command read last asked for no reply (set by Request.Read; Request.Clear resets NoReply
 // itself at the end of ServeOnce, so the postcondition of ServeOnce needs this copy)
 var ghostNoReply map[*Request]bool
+
+// the request (with its counted value buffer, if any) was handed to the command interpreter,
+// which owns the buffer from then on (reset by Request.Read, set by Request.Process)
+var ghostHandedOver map[*Request]bool
 
 // ---------- verified ----------
 
@@ -55,19 +62,25 @@ var ghostNoReply map[*Request]bool
 
 // the parser: consumes one command from the connection; remembers whether it asked for no reply
 //@ func (req *Request) Read
-//@   props C11
+//@   props C11 C12
 //@   ints bv
 //@   assumed parser of one command line (+ value block); string splitting and number parsing are opaque to the verifier
-//@   requires ghostNoReply != nil
-//@   modifies all(req), ghostNoReply[req], ghostFail(), ghostClock()
-//@   ensures ghostNoReply[req] == (result0 == nil && req.NoReply)
+//@   requires ghostNoReply != nil && ghostHandedOver != nil
+//@   modifies all(req), ghostNoReply[req], ghostHandedOver[req], ghostFail(), ghostClock(), cmem.DBRL.SetData.Size, cmem.DBRL.SetData.MaxSize, cmem.DBRL.SetData.Count, cmem.DBRL.SetData.MaxCount, cmem.AllocRL.Size, cmem.AllocRL.MaxSize, cmem.AllocRL.Count, cmem.AllocRL.MaxCount
+//@   ensures ghostNoReply[req] == (result0 == nil && req.NoReply) && !ghostHandedOver[req]
 //@   ensures req.Item != nil ==> fresh(req.Item)
+//@   ensures result0 != nil ==> cmem.DBRL.SetData.Count == old(cmem.DBRL.SetData.Count) && cmem.DBRL.SetData.Size == old(cmem.DBRL.SetData.Size)      // C12: a rejected command leaves no counted buffer behind (the error paths of Read undo the count)
+//@   ensures result0 == nil && req.Item != nil ==> cmem.DBRL.SetData.Count == old(cmem.DBRL.SetData.Count)+1 && cmem.DBRL.SetData.Size == old(cmem.DBRL.SetData.Size)+int64(req.Item.CArray.Cap)
+//@   ensures result0 == nil && req.Item == nil ==> cmem.DBRL.SetData.Count == old(cmem.DBRL.SetData.Count) && cmem.DBRL.SetData.Size == old(cmem.DBRL.SetData.Size)
 
 // the interpreter: a response object (nil for quit); no reply is suppressed unless the command asked for it
 //@ func (req *Request) Process
-//@   props C11
+//@   props C11 C12
 //@   ints bv
-//@   assumed command interpreter over an arbitrary storage client
+//@   assumed command interpreter over an arbitrary storage client; it takes over the request's counted value buffer (what it does with it is C12 at the store level)
+//@   requires ghostHandedOver != nil
+//@   modifies ghostHandedOver[req], ghostFail(), ghostClock(), cmem.DBRL.SetData.Size, cmem.DBRL.SetData.MaxSize, cmem.DBRL.SetData.Count, cmem.DBRL.SetData.MaxCount, cmem.DBRL.GetData.Size, cmem.DBRL.GetData.MaxSize, cmem.DBRL.GetData.Count, cmem.DBRL.GetData.MaxCount, cmem.DBRL.FlushData.Size, cmem.DBRL.FlushData.MaxSize, cmem.DBRL.FlushData.Count, cmem.DBRL.FlushData.MaxCount, cmem.AllocRL.Size, cmem.AllocRL.MaxSize, cmem.AllocRL.Count, cmem.AllocRL.MaxCount
+//@   ensures ghostHandedOver[req]
 //@   ensures resp != nil ==> fresh(resp) && (resp.Noreply ==> req.NoReply)
 
 // the reply writer: a reply is at least one byte; nothing is written for noreply
@@ -82,8 +95,8 @@ var ghostNoReply map[*Request]bool
 //@ func (resp *Response) CleanBuffer
 //@   props C11
 //@   ints bv
-//@   assumed releases the items of a response (buffer accounting: C12)
-//@   modifies resp.Items
+//@   assumed releases the items of a response (GetData accounting: C12 at the store level); the SetData counters are not touched
+//@   modifies resp.Items, cmem.DBRL.GetData.Size, cmem.DBRL.GetData.MaxSize, cmem.DBRL.GetData.Count, cmem.DBRL.GetData.MaxCount, cmem.AllocRL.Size, cmem.AllocRL.MaxSize, cmem.AllocRL.Count, cmem.AllocRL.MaxCount
 
 //@ func (rl *ReqLimiter) Put
 //@   props C11
@@ -106,12 +119,15 @@ var ghostNoReply map[*Request]bool
 // C11: when ServeOnce returns without error and the connection is to stay open, the command got its
 // reply - at least one byte was written unless the command asked for no reply - and every byte
 // written has been flushed to the connection; the request object is reset for the next command.
+// C12: a counted value buffer that is never handed to the interpreter (rejected command, receive
+// timeout) is released by ServeOnce itself: SetData is back where it was.
 //@ func (c *ServerConn) ServeOnce
-//@   props C11
+//@   props C11 C12
 //@   ints bv
-//@   requires c.req != nil && c.rbuf != nil && c.wbuf != nil && storageClient != nil && stats != nil && ghostNoReply != nil && RL != nil && accessLogger != nil
+//@   requires c.req != nil && c.rbuf != nil && c.wbuf != nil && storageClient != nil && stats != nil && ghostNoReply != nil && ghostHandedOver != nil && RL != nil && accessLogger != nil
 //@   requires streamFlushed(c.wbuf) == streamLen(c.wbuf) && !c.closeAfterReply
 //@   modifies *
 //@   ensures err == nil && !c.closeAfterReply ==> streamFlushed(c.wbuf) == streamLen(c.wbuf)
 //@   ensures err == nil && !c.closeAfterReply ==> streamLen(c.wbuf) > old(streamLen(c.wbuf)) || ghostNoReply[c.req]
 //@   ensures !c.req.NoReply && c.req.Item == nil
+//@   ensures !ghostHandedOver[c.req] ==> cmem.DBRL.SetData.Count == old(cmem.DBRL.SetData.Count) && cmem.DBRL.SetData.Size == old(cmem.DBRL.SetData.Size)
